@@ -78,9 +78,11 @@ def bind_key(I, state, sym, roles, constraint=None):
         del state.heap[hk]
     for hk in [hk for hk in state.heap if hk[0] == "edge" and (hk[1] == sym or hk[2] == sym)]:
         del state.heap[hk]
-    # exact default (no 'written' closure): a fresh binding denotes a fresh case distinction
+    # a role with a trace partition starts from exactly the partition's state (case distinction);
+    # everything else starts from the default closed under the states written so far
     saved = state.written
-    if constraint is None:
+    tags = set(r[0] if isinstance(r, tuple) else r for r in roles)
+    if constraint is None and any(t in I.cfg.cell_init for t in tags):
         state.written = frozenset()
     I.load_root(state, root)
     state.written = saved
@@ -945,6 +947,35 @@ def instantiate(I, state, frame, bi, tmpl, span, anonymous=False, tag=""):
         out = []
         for (e, st) in instantiate(I, state, frame, bi, tmpl[1], span, False, tag + "f"):
             root = ("filtelem", frame.fid, bi, tag)
+            if e[0] == "key" and e[1] is not None:
+                # predicate summary of the closure: evaluate it once per concrete state of the element
+                jr = ("job", e[1], e[2], e[3])
+                cell = I.load_root(st, jr)
+                cur = av_get(cell, (("f", L.state_field),), I.uni)
+                keep = set()
+                merged = None
+                from interp import join_state
+                if cur is not None and cur[0] == "fin":
+                    for c in cur[2]:
+                        s1 = st.copy()
+                        s1.heap[jr[:2]] = av_set(cell, (("f", L.state_field),), fin(L.jobstate, [c]), I.uni)
+                        s1.heap[root] = e
+                        may_true = False
+                        for (rv, s2) in call_closure(I, s1, frame, bi, tmpl[2], [ref(root, ())], span):
+                            if rv[0] == "fin" and rv[1] == BOOL and (1,) not in rv[2]:
+                                continue
+                            may_true = True
+                            merged = join_state(merged, s2)
+                        if may_true:
+                            keep.add(c)
+                    if not keep or merged is None:
+                        continue
+                    cons = fin(L.jobstate, keep)
+                    e2 = ("key", e[1], e[2], cons if e[3] is None else fin(L.jobstate, keep & e[3][2]))
+                    if anonymous:
+                        e2 = anonymise(e2)
+                    out.append((e2, merged))
+                    continue
             st.heap[root] = e
             for (rv, s2) in call_closure(I, st, frame, bi, tmpl[2], [ref(root, ())], span):
                 if rv[0] == "fin" and rv[1] == BOOL:
@@ -952,15 +983,7 @@ def instantiate(I, state, frame, bi, tmpl, span, anonymous=False, tag=""):
                         continue
                     if I.apply_links(s2, rv[3], 1) is False:
                         continue
-                e2 = e
-                if e[0] == "key" and e[1] is not None:
-                    cell = I.load_root(s2, ("job", e[1], e[2], e[3]))
-                    stv = av_get(cell, (("f", L.state_field),), I.uni)
-                    if stv is not None and stv[0] == "fin":
-                        e2 = ("key", e[1], e[2], strip_links(stv))
-                if anonymous:
-                    e2 = anonymise(e2)
-                out.append((e2, s2))
+                out.append((anonymise(e) if anonymous else e, s2))
         return out
     if k == "map":
         out = []
